@@ -146,7 +146,9 @@ class BaseDB(object):
 
         self.lock.acquire()
         try:
-            usernames = self.db.keys()
+            # copy under the lock: for an in-memory database keys() is a live
+            # view of the dict and must not be iterated after the release
+            usernames = list(self.db.keys())
         finally:
             self.lock.release()
         usernames = [u for u in usernames if not u.startswith("--Reserved--")]
